@@ -7,6 +7,7 @@
   interleaving of the two copiers, main, the caller and the environment.
 -/
 import SA.Proofs.Pipe
+import SA.Gen.Locks
 namespace SA.Pipe
 
 theorem quiescent_iff (c : Cfg) (s : St) : quiescent c s = true ↔
@@ -295,6 +296,13 @@ example : let c := genCfg .downOnly
     let s := run c (init [[1,2,3]] [[4]]) [.stepD, .stepD, .stepU, .stepU, .finDown, .stepD, .sendD, .recvD, .stepU, .sendU, .callerClose]
     quiescent c s = true ∧ s.mainDone = true ∧ liveCopiers s = 0 ∧ s.uOut = [1,2,3] ∧ s.dOut = [4] := by decide
 
+/-- **locks_not_reentrant**: the models treat what a function does between Lock and Unlock of one of the repository's
+    mutexes as one atomic step (Upstreams.Connect / discard / Shutdown here).  No function, while holding such a mutex,
+    reaches code that locks the same mutex again (regenerated: lexical lock regions, calls resolved by name within the
+    package and through function-valued fields) — a re-entrant path on a sync.Mutex blocks the goroutine for ever with
+    the lock held, and every later logical connection queues up behind it with its goroutine and socket. -/
+theorem C14_locks_not_reentrant : Gen.reentrantLockPaths = [] := by decide
+
 end SA.Pipe
 
 #print axioms SA.Pipe.C14_pipe_goroutines_terminate
@@ -308,3 +316,4 @@ end SA.Pipe
 #print axioms SA.Pipe.C14_witness_spin
 #print axioms SA.Pipe.C14_refused_session_released
 #print axioms SA.Pipe.C14_witness_refusal_waits
+#print axioms SA.Pipe.C14_locks_not_reentrant
